@@ -40,7 +40,7 @@ CHECKS = {
     "C04": (
         "model_checking",
         "explicit enumeration of all write histories up to depth 3/4 x matching read histories on the real EoWriter/EoReader (depth-bounded E1)",
-        "Every sequence of typed writes from a 94-op menu (+ trailing strings) is written and read back on the real classes; the oracle is the property's own round-trip statement.",
+        "Every sequence of typed writes from a ~100-op menu (+ trailing strings, a length ladder up to 300 characters) is written and read back on the real classes; the output is also taken after every write, with a reader kept alive over it, and must still read back what had been written; the oracle is the property's own round-trip statement.",
         "Depth bound 3/4; menu values at digit boundaries; excluded characters exactly as the statement excludes.",
         "DESIGN.md section 6 C04",
         "E1",
@@ -65,8 +65,10 @@ CHECKS = {
         "model_checking",
         "explicit-state BFS to fixpoint over (real EoReader x reference reader) per data string; thorough adds TLC model + replay of every dumped edge",
         "Every reachable product state of the real reader and the documented chunked-reading model, for every data "
-        "string over a 5/7-symbol alphabet up to length 4/5, under the full public op menu incl. slices of slices; a "
-        "fixpoint is a statement about histories of every length over that data.",
+        "string over a 5/7-symbol alphabet up to length 4/5, under the full public op menu incl. slices of slices (judged "
+        "behaviourally); parent/child independence pairs; unobserved 3-op histories with the data given as bytes, bytearray "
+        "and memoryview; the TLC state graph of tla/ChunkedReader.tla replayed edge by edge on the real class and on the "
+        "reference model. A fixpoint is a statement about histories of every length over that data.",
         "Reference reader M3 is our transcription of the documented model; alphabet and length bound; Python 3.12.",
         "DESIGN.md section 6 C05, section 3 E1/E5",
         "E1",
